@@ -95,6 +95,9 @@ theorem bandOpen_ro (b : Nat) : AllOps ReadOnly (bandOpen b) := by
 theorem bandIsClosed_ro (b : Nat) : AllOps ReadOnly (bandIsClosed b) := isFile_ro _
 theorem bandExists_ro (b : Nat) : AllOps ReadOnly (bandExists b) := isFile_ro _
 theorem gcIsLocked_ro : AllOps ReadOnly gcIsLocked := isFile_ro _
+/-- The second look `backup` takes at the lock: one `listDir` of the root, nothing else. -/
+theorem gcLockListed_ro : AllOps ReadOnly gcLockListed := by
+  unfold gcLockListed; allops
 
 theorem unwrapOr_allOps {α : Type} {P : Op → Prop} {p : Prog α} (d : α) (h : AllOps P p) :
     AllOps P (unwrapOr p d) := by
@@ -237,7 +240,7 @@ theorem backupLoop_wr (o : BackupOpts) (w : Writer) (ms : List Matched) :
 
 theorem backup_bk (o : BackupOpts) (src : List SrcEntry) : AllOps BackupOp (backup H o src) := by
   unfold backup
-  allops [gcIsLocked_ro, lastBandId_ro, bandCreate_bk, listBlocks_ro, listEntries_ro, backupLoop_wr,
+  allops [gcIsLocked_ro, lastBandId_ro, bandCreate_bk, gcLockListed_ro, listBlocks_ro, listEntries_ro, backupLoop_wr,
     flushGroup_wr, finishHunk_wr, bandClose_wr]
 
 theorem backup_createOnly (o : BackupOpts) (src : List SrcEntry) : AllOps CreateOnly (backup H o src) :=
